@@ -33,6 +33,8 @@ import (
 	"strings"
 
 	"github.com/antonmedv/expr"
+	"github.com/antonmedv/expr/compiler"
+	"github.com/antonmedv/expr/parser"
 	"github.com/antonmedv/expr/vm"
 )
 
@@ -236,7 +238,20 @@ type c09Case struct {
 	Opt string
 }
 
-var c09OptSets = []string{"untyped", "untyped+opt", "typed", "typed+opt", "typed+opt+int64", "typed+opt+bool", "mapenv+opt", "mapenv+undef", "typed+ops+constexpr", "typed-value", "typed-value+undef"}
+var c09OptSets = []string{"untyped", "untyped+opt", "typed", "typed+opt", "typed+opt+int64", "typed+opt+bool", "mapenv+opt", "mapenv+undef", "typed+ops+constexpr", "typed-value", "typed-value+undef", "nilconfig"}
+
+// c09Compile: expr.Compile with the option set, or - option set "nilconfig" - what expr.Eval does: parse and
+// compile with a nil *conf.Config (no type information, no options object at all)
+func c09Compile(c c09Case, sample *Env, menv map[string]interface{}) (*vm.Program, error) {
+	if c.Opt == "nilconfig" {
+		tree, err := parser.Parse(c.Src)
+		if err != nil {
+			return nil, err
+		}
+		return compiler.Compile(tree, nil)
+	}
+	return expr.Compile(c.Src, c09Options(c.Opt, sample, menv)...)
+}
 
 func c09Options(name string, sample *Env, menv map[string]interface{}) []expr.Option {
 	switch name {
@@ -321,7 +336,7 @@ func c09Cases(rng *rand.Rand) []c09Case {
 	for i, s := range srcs {
 		for j, o := range c09OptSets {
 			// every source in the four basic modes; the other option sets on a rotating third
-			if j < 4 || (i+j)%3 == 0 || strings.Contains(s, "PtrM") || strings.Contains(s, "Twice") || strings.Contains(s, "Get()") {
+			if j < 4 || (i+j)%3 == 0 || o == "nilconfig" && i%2 == 0 || strings.Contains(s, "PtrM") || strings.Contains(s, "Twice") || strings.Contains(s, "Get()") {
 				cases = append(cases, c09Case{s, o})
 			}
 		}
@@ -364,7 +379,7 @@ func c09Child() {
 	}
 	for _, i := range order {
 		c := cases[i]
-		p, err := expr.Compile(c.Src, c09Options(c.Opt, sample, menv)...)
+		p, err := c09Compile(c, sample, menv)
 		ds[i] = c09Digest(p, err)
 	}
 	b, _ := json.Marshal(ds)
@@ -436,7 +451,7 @@ func runC09() {
 	for i, c := range cases {
 		var first string
 		for k := 0; k < 5; k++ {
-			p, err := expr.Compile(c.Src, c09Options(c.Opt, sample, menv)...)
+			p, err := c09Compile(c, sample, menv)
 			rep.Evaluations++
 			d := c09Digest(p, err)
 			if k == 0 {
